@@ -24,12 +24,19 @@ def _key(case):
 
 
 def _load_known(prop):
-    path = os.path.join(VERIF, 'known_findings.json')
-    if not os.path.exists(path):
-        return []
-    with open(path) as f:
-        data = json.load(f)
-    return [e for e in data.get('findings', []) if e.get('property') == prop]
+    """Known findings: /verif/known_findings.json plus /verif/known_findings.d/*.json (same format)."""
+    paths = [os.path.join(VERIF, 'known_findings.json')]
+    d = os.path.join(VERIF, 'known_findings.d')
+    if os.path.isdir(d):
+        paths += [os.path.join(d, f) for f in sorted(os.listdir(d)) if f.endswith('.json')]
+    out = []
+    for path in paths:
+        if not os.path.exists(path):
+            continue
+        with open(path) as f:
+            data = json.load(f)
+        out += [e for e in data.get('findings', []) if e.get('property') == prop]
+    return out
 
 
 def _match_known(known, sig):
